@@ -464,6 +464,9 @@ class Dispatcher(BaseDispatcher, Generic[ContextType]):
                             if not isinstance(resp, UnsetType)
                         ),
                     )
+                    if len(response) == 0:
+                        # a batch of notifications only must not be answered
+                        response = UNSET
             else:
                 response = self._request_handler(request, context)
 
@@ -612,6 +615,9 @@ class AsyncDispatcher(BaseDispatcher, Generic[ContextType]):
                             if resp
                         ),
                     )
+                    if len(response) == 0:
+                        # a batch of notifications only must not be answered
+                        response = UNSET
             else:
                 response = await self._request_handler(request, context)
 
